@@ -2,3 +2,4 @@
 pub mod util;
 mod settings_h;
 mod session_h;
+mod qpack_h;
